@@ -23,7 +23,9 @@ EXPLANATION = (
     "R4: the loops and tests of libChkHeader that refuse a header constrain hdr.Section[j].name and .offset for every j "
     "in [LIB_INDEX_START, hdr.numSect) (interval arithmetic over loop headers of the form i = c; i < bound; i += 1; the "
     "entry constrained by a test is the highest index it mentions). "
-    "Not decided: that every corruption inside a complete section is detected (the format has no checksums).")
+    "R5 (use before validation): in libGetHeader, before the call of libChkHeader, no loop condition mentions a header field that "
+    "was filled from the file buffer (or a local computed from one), and such a value indexes an array only under an enclosing "
+    "`value < constant` test. Not decided: that every corruption inside a complete section is detected (the format has no checksums).")
 
 FROZEN = os.path.join(os.path.dirname(__file__), "frozen")
 READS = ("fread", "fscanf", "fgets")
@@ -216,6 +218,81 @@ def check_header_cover(rep, f):
                           "every entry below numSect: a damaged %s there is used silently" % (field, gap, field))
 
 
+def check_use_before_validate(rep, f):
+    """R5: in libGetHeader nothing read from the file steers a loop or an array access before libChkHeader has judged it."""
+    fn = f.func("libGetHeader")
+    body = fn["body"]
+    chk = [c for c in calls(body, "libChkHeader")]
+    if len(chk) != 1:
+        raise AnalysisBroken("libGetHeader: expected one call of libChkHeader")
+    chk_line = chk[0]["l"]
+    tainted = set()
+    for x in walk(body):
+        if x["k"] == "BinaryOperator" and x["op"] == "=":
+            l = strip(x["c"][0])
+            if l is not None and l["k"] == "MemberExpr" and any((c.get("callee") or "").startswith("bufGet") for c in calls(x["c"][1])):
+                tainted.add(l["n"])
+    if len(tainted) < 5:
+        raise AnalysisBroken("libGetHeader: header fields filled from the buffer not recognised (%s)" % sorted(tainted))
+
+    def mentions(n, extra=()):
+        for y in walk(n):
+            if y["k"] == "MemberExpr" and y.get("n") in tainted:
+                return y["n"]
+            if y["k"] == "DeclRefExpr" and y["n"] in extra:
+                return y["n"]
+        return None
+    # locals defined from tainted fields
+    tl = set()
+    for x in walk(body):
+        for d in (x.get("decls", []) if x["k"] == "DeclStmt" else []):
+            if d.get("init") is not None and mentions(d["init"]):
+                tl.add(d["n"])
+        if x["k"] == "BinaryOperator" and x["op"] == "=":
+            l = strip(x["c"][0])
+            if l is not None and l["k"] == "DeclRefExpr" and mentions(x["c"][1]):
+                tl.add(l["n"])
+    par = common.parents(body)
+    nloops = nidx = 0
+    for x in walk(body):
+        if x.get("l", 0) >= chk_line:
+            continue
+        if x["k"] in ("ForStmt", "WhileStmt", "DoStmt"):
+            cond = x["c"][1] if x["k"] in ("ForStmt", "DoStmt") else x["c"][0]
+            nloops += 1
+            m = mentions(cond, tl) if cond is not None else None
+            key = "libGetHeader:loop-bound@%d" % nloops
+            if m:
+                rep.violation("R5", key, "lib.c:%d (libGetHeader)" % x["l"],
+                              "the loop bound `%s` uses '%s', which was just read from the file and has not yet been judged by "
+                              "libChkHeader: a damaged count makes the loop run past the section table or skip sections" % (render(cond), m))
+            else:
+                rep.ok("R5", key, sample={"loop": render(cond)} if nloops == 1 else None)
+        if x["k"] == "ArraySubscriptExpr":
+            m = mentions(x["c"][1], tl)
+            if not m:
+                continue
+            nidx += 1
+            key = "libGetHeader:index:%s" % m
+            # enclosing condition must bound the same variable against a constant
+            ok = False
+            ch, p = x, par.get(x["id"])
+            while p is not None:
+                if p["k"] == "IfStmt" and p["c"][1] is not None and any(z["id"] == ch["id"] for z in [p["c"][1]]):
+                    c = strip(p["c"][0])
+                    if c is not None and c["k"] == "BinaryOperator" and c["op"] in ("<", "<=") and mentions(c["c"][0], tl) == m \
+                            and common.const_value(c["c"][1]) is not None:
+                        ok = True
+                ch, p = p, par.get(p["id"])
+            if ok:
+                rep.ok("R5", key)
+            else:
+                rep.violation("R5", key, "lib.c:%d (libGetHeader)" % x["l"],
+                              "'%s' comes from the file and indexes an array before libChkHeader has judged the header, without a bound test" % m)
+    if nloops < 2:
+        raise AnalysisBroken("libGetHeader: the loops that fill the section table were not found")
+
+
 def digest(f):
     out = {"reads": [], "chk": [], "referenced": set(), "refs_by_fn": {}}
     for name, fn in f.funcs.items():
@@ -368,7 +445,9 @@ def run(tier, only=None):
     else:
         rep.violation("R3", "libGetSection:buffer-size-is-read-size", "lib.c:%d (libGetSection)" % fn["l"],
                       "the section buffer is not sized by the same count that the checked read used")
-    check_header_cover(rep, common.extract("lib.c", trees=["libChkHeader", "libGetHeader"]))
+    f_hdr = common.extract("lib.c", trees=["libChkHeader", "libGetHeader"])
+    check_header_cover(rep, f_hdr)
+    check_use_before_validate(rep, f_hdr)
     # R3 taint
     probe = os.path.join(common.VERIF, "witness", "foam_probe.c")
     fp = common.extract(probe)
